@@ -26,6 +26,7 @@ pub mod c20;
 pub mod compile;
 pub mod doc;
 pub mod engine;
+pub mod fuzzstage;
 pub mod gen;
 pub mod guard;
 pub mod inject;
